@@ -41,7 +41,7 @@ Qed.
 
 (* ... hence every run of an accepted DAG can be driven to completion from any reachable state, and is never stuck:
    the scheduler model needs no other guard against non-termination than graph admission (the property's remark
-   "if a cyclic graph were admitted the run would never terminate"). *)
+   "if a cyclic graph were accepted the run would never terminate"). *)
 Theorem accepted_graph_completes (c : cfg) : norepeat c ->
   (forall i d, i < nsteps c -> In d (deps (steps c i)) -> d < nsteps c) ->
   has_cycle (nsteps c) (cfg_edges c) = false ->
